@@ -262,21 +262,10 @@ theorem withValue_fill (es r c : Nat) (v : α) (h1 : r * c ≤ usizeMax) (h2 : e
     simp [Matrix.at?, Matrix.nrows, Matrix.ncols, AxisShape.nrows, AxisShape.ncols, hi, hj, Matrix.idx,
       Index.flat, AxisIndex.flat, AxisIndex.ofIndex, Array.getElem?_replicate, this]
 
-/-! ### T1: the macros (table re-extracted from `src/macros.rs`) -/
-
-/-- each macro arm expands to the constructor / conversion the documentation describes -/
-theorem macros_correct :
-    Gen.macroArms = [
-      ⟨"matrix", "empty", "Matrix::new"⟩,
-      ⟨"matrix", "[[elem; ncols]; nrows]", "Matrix::with_value"⟩,
-      ⟨"matrix", "[[elems..]; nrows]", "Matrix::from(vec![[..]; nrows])"⟩,
-      ⟨"matrix", "[rows..]", "Matrix::from([rows..])"⟩,
-      ⟨"row_vec", "empty", "Matrix::from_row"⟩,
-      ⟨"row_vec", "[elem; n]", "Matrix::from_row"⟩,
-      ⟨"row_vec", "[elems..]", "Matrix::from_row"⟩,
-      ⟨"col_vec", "empty", "Matrix::from_col"⟩,
-      ⟨"col_vec", "[elem; n]", "Matrix::from_col"⟩,
-      ⟨"col_vec", "[elems..]", "Matrix::from_col"⟩] := by decide
+/- The table theorem `macros_correct` (T1) was retired in the fourth session: `C19.macros_are_the_source` (T19, `Lemmas/BridgeT19.lean`)
+proves every arm of `matrix!` / `row_vec!` / `col_vec!`, regenerated from the text with its pattern and first-match position, equal to the
+model's meaning of that macro form, argument order, clones and panics included; the table was sensitive to the order of the (pairwise
+disjoint) arms and to spelling. -/
 
 /-! ### non-vacuity -/
 example : Matrix.tryFromRows 4 [[1, 2, 3], [4]] = .ok (.error .lengthInconsistent) := by rfl
